@@ -39,7 +39,7 @@ from vf.runner import h as _hash
 PROPERTY = "C20"
 LEVEL = "fault_enumeration"
 EXHAUSTIVE = False
-RULE = ("three case families per (framework, transport, serializer): (1) ROUNDTRIP - 15 fixed + seeded random key-ring "
+RULE = ("three case families per (framework, transport, serializer): (1) ROUNDTRIP - 16 fixed + seeded random key-ring "
         "layouts (default key, per-prefix keys with nested prefixes, prefix-only, originator-only / responder-only "
         "halves, wrong key pairs, diverging prefix tables, no codec on one side) x 6 URIs (one per prefix class incl. "
         "'no key') x {publish/event, prefix-subscription event, call with plain result, CallResult with kwargs, "
@@ -69,13 +69,13 @@ ASSUMPTIONS = [
     "the harness codecs (json/msgpack/cbor2/bjdata) and vf.rfc6455_ref are trusted for decoding what the sessions wrote",
 ]
 DECIDING = {
-    "events_compared": 300, "invocations_compared": 800, "results_compared": 300, "progress_compared": 100,
-    "errors_compared": 200, "wire_encrypted_opened": 2000, "wire_clear_by_rule": 300, "rejections_checked": 500,
-    "octet_strings_searched": 5000, "tag_patterns_searched": 50000, "nonces_compared": 5000,
-    "faults_event": 4000, "faults_invocation": 4000, "faults_result": 4000, "faults_progress": 4000,
-    "faults_error": 4000, "fault_ciphertext_byte": 15000, "fault_truncation": 4000, "fault_extension": 300,
-    "fault_wrong_key": 150, "fault_uri_swap": 150, "fault_enc_field": 400, "positive_controls": 300,
-    "unencodable_probes": 100, "enc_error_uris": 3, "layouts": 15,
+    "events_compared": 500, "invocations_compared": 1500, "results_compared": 1000, "progress_compared": 600,
+    "errors_compared": 600, "wire_encrypted_opened": 6000, "wire_clear_by_rule": 3000, "rejections_checked": 1500,
+    "octet_strings_searched": 50000, "tag_patterns_searched": 1000000, "nonces_compared": 50000,
+    "faults_event": 10000, "faults_invocation": 10000, "faults_result": 10000, "faults_progress": 10000,
+    "faults_error": 10000, "fault_ciphertext_byte": 40000, "fault_truncation": 12000, "fault_extension": 600,
+    "fault_wrong_key": 300, "fault_uri_swap": 300, "fault_enc_field": 1000, "positive_controls": 400,
+    "unencodable_probes": 200, "enc_error_uris": 3, "layouts": 16,
 }
 
 COMBOS = [("websocket", "json"), ("websocket", "msgpack"), ("websocket", "cbor"), ("websocket", "ubjson"),
@@ -1254,7 +1254,7 @@ def replay(case, R):
 MANIFEST_ENTRY = {
     "text": ("An originator and a responder session (real ApplicationSessions with real cryptobox KeyRings behind the real "
              "client transports: WebSocket and RawSocket, Twisted and asyncio, json/msgpack/cbor/ubjson) are joined by a "
-             "forwarding stub that plays the router with plain WAMP lists. Over 15 fixed and seeded random key-ring layouts "
+             "forwarding stub that plays the router with plain WAMP lists. Over 16 fixed and seeded random key-ring layouts "
              "(default key, nested per-prefix keys, prefix-only, originator-only / responder-only halves, wrong key pairs, "
              "diverging prefix tables, no codec) and all payload paths (publish/event incl. prefix subscriptions, "
              "call/invocation, yield/result incl. progressive results, errors) the monitor reads every message back from the "
